@@ -1,11 +1,23 @@
-"""Shared scaffolding for the synchronous-client lemmas (C08, C13): a transaction manager over a real framer, a stub
-decoder and a havoc'd transport (every read returns arbitrary bytes within the requested size, or nothing, or raises)."""
+"""Shared scaffolding for the synchronous-client lemmas (C08, C13).
+
+The transaction manager's execute / _transact / _recv are the real code.  Around them:
+  transport   client.connect / close / send / recv are python functions of the unit (havoc'd: every read returns arbitrary bytes
+              within the requested size, or nothing, or raises)
+  framer      symbolic mode: the real framer object (isinstance tests in the manager see its class) whose processIncomingPacket is
+              replaced by the contract FramerDelivers - what the filter lemmas (C08/filter.<kind>, real framer code) establish about
+              every message a framer hands to its callback; buildPacket / RTU sendPacket / recvPacket are abstracted (transport side)
+              concrete mode (replay, twin): the real framer with a recording stub decoder, nothing abstracted
+"""
 from pyvc import lang as L
+from pyvc.unit import FunctionContract
 from . import framers as F
 
 TM = 'pymodbus.transaction.DictTransactionManager'
+TMQ = 'pymodbus.transaction.ModbusTransactionManager'
 BASE = 'pymodbus.client.sync.BaseModbusClient'
 IDLE, COMPLETE = 0, 6
+
+CUR = {}        # per-path recorder handed to the contracts (set by make_client)
 
 
 class Wire:
@@ -14,44 +26,172 @@ class Wire:
         self.reads = []         # (requested size, bytes returned)
         self.connects = 0
         self.closes = 0
+        self.handed = []        # (data handed to processIncomingPacket, framer buffer length at that moment)
+        self.events = []        # 'connect' | 'send' | 'recv' | 'close' in order
 
 
-def make_client(E, kind, wire, rec, retries, retry_on_empty, retry_on_invalid, transport, connect_ok=True):
+class Custom(FunctionContract):
+    """abstraction of a callee by a python function of the unit (symbolic mode only; listed under the unit's assumptions)"""
+    def __init__(self, qual, fn, note=''):
+        self.qual, self.fn, self.note = qual, fn, note
+
+    def apply(self, I, args, kw):
+        from pyvc.sym import SymE
+        E = SymE(I.st, I.cfg)
+        E.I = I
+        return self.fn(E, I, *args, **kw)
+
+    def unit(self):
+        return None
+
+
+def _fresh_bytes(E, name, lo=0, hi=300):
+    from pyvc import values as V
+    s = V.Seq.fresh('bytes', name, lo=0, hi=256, inp=False)
+    E.assume(L.And(L.length(s) >= lo, L.length(s) <= hi))
+    return s
+
+
+def transport_side(kind):
+    """buildPacket -> some non-empty frame (C03 decides which); RTU sendPacket / recvPacket -> the client's send / recv (their waiting
+    loops and time stamps are not modelled)"""
+    q = F.QUAL[kind]
+    cs = [Custom(q + '.buildPacket', lambda E, I, fr, msg: _fresh_bytes(E, 'frame', 4, 300), 'request frame abstracted')]
+    if kind == 'rtu':
+        def send(E, I, fr, message):
+            client = E.get(fr, 'client')
+            E.set(client, 'state', E.fresh_int('state_after_wait'))
+            return I.call_value(E.get(client, 'send'), [message], {})
+
+        def recv(E, I, fr, size):
+            client = E.get(fr, 'client')
+            return I.call_value(E.get(client, 'recv'), [size], {})
+        cs += [Custom(q + '.sendPacket', send), Custom(q + '.recvPacket', recv)]
+    return cs
+
+
+class TransactAny(FunctionContract):
+    """_transact(packet, response_length, full, broadcast) as the transact lemma (C08/transact.<kind>, real code) establishes it: returns a pair
+    (bytes received - possibly none, last exception or None); touches neither the framer's buffer nor the reply slots nor the request, except
+    that the RTU framer's buildPacket overwrites request.transaction_id with the unit id; the client state is whatever the exchange left;
+    exceptions other than the transport errors it catches propagate"""
+    qual = TMQ + '._transact'
+
+    def __init__(self, kind):
+        self.kind = kind
+
+    def apply(self, I, args, kw):
+        from pyvc.sym import SymE
+        E = SymE(I.st, I.cfg)
+        E.I = I
+        tm, packet = args[0], args[1]
+        client = E.get(tm, 'client')
+        E.set(client, 'state', E.fresh_int('state_after_transact'))
+        if self.kind == 'rtu':
+            E.set(packet, 'transaction_id', E.get(packet, 'unit_id'))      # ModbusRtuFramer.buildPacket: the unit id stands in for the transaction id
+        k = I.st.branch(3, 'transact-outcome')
+        if k == 2:
+            raise E.Raised('ValueError')          # e.g. int() of non-hex ASCII characters in _recv: not caught by _transact
+        data = _fresh_bytes(E, 'received', 0, 600)
+        CUR['wire'].reads.append((None, data))
+        if k == 1:
+            E.assume(L.length(data) == 0)
+            return (data, E.opaque('transport-error'))
+        return (data, None)
+
+    def unit(self):
+        return None
+
+
+class FramerDelivers(FunctionContract):
+    """processIncomingPacket(data, callback, unit, single=False) of a client-side framer, as the filter lemmas establish it for the real code:
+    the callback is invoked zero or more times, each time with a message m produced by the decoder from a frame in buffer + data such that
+      m.unit_id is the unit id on the wire and passes the unit filter: single, or 0 / 0xFF among the expected units, or the wire id among them
+      (TCP) m.transaction_id / protocol_id are the ones on the wire
+    and nothing is delivered when buffer and data are both empty; the call may raise after any delivery.  m's transaction id, function code and
+    (within the filter) unit id are otherwise arbitrary - the framer does not know the request.
+    At the call site the number of deliveries is split 0 / 1 / 2 / 1-then-raise: the client's callback stores under one fixed key, so any
+    longer sequence leaves the same state as its last two elements."""
+    def __init__(self, kind):
+        self.kind = kind
+        self.qual = F.QUAL[kind] + '.processIncomingPacket'
+
+    def apply(self, I, args, kw):
+        from pyvc.sym import SymE
+        E = SymE(I.st, I.cfg)
+        E.I = I
+        fr, data, callback, unit = args[:4]
+        single = kw.get('single', False)
+        units = list(unit) if isinstance(unit, (list, tuple)) else [unit]
+        rec, wire = CUR['rec'], CUR['wire']
+        buflen = L.length(E.get(fr, '_buffer'))
+        wire.handed.append((data, buflen))
+        k = I.st.branch(4, 'framer-deliveries')
+        nothing = L.And(L.length(data) == 0, buflen == 0)
+        if k > 0:
+            E.assume(L.Not(nothing))
+        for j in range({0: 0, 1: 1, 2: 2, 3: 1}[k]):
+            n = len(rec.decoded)
+            uid = E.fresh_int('wire_uid%d' % n)
+            tid = E.fresh_int('wire_tid%d' % n)
+            fc = E.fresh_int('wire_fc%d' % n)
+            E.assume(L.And(0 <= uid, uid < 256, 0 <= tid, tid < 65536, 0 <= fc, fc < 256))
+            E.assume(L.Or(L.truth(single), *([L.Or(u == 0, u == 255, u == uid) for u in units])))
+            msg = E.obj('pymodbus.pdu.ModbusResponse', transaction_id=tid if self.kind == 'socket' else 0, protocol_id=0, unit_id=uid, skip_encode=False, check=0, function_code=fc)
+            rec.decoded.append((None, None, {'uid': uid, 'tid': tid}, msg))
+            I.call_value(callback, [msg], {})
+        E.set(fr, '_buffer', _fresh_bytes(E, 'buffer_after', 0, 600))
+        if k == 3:
+            raise E.Raised(E.choice('framer_raises', ['ModbusIOException', 'struct.error']))      # the one the manager catches / one it does not
+        return None
+
+    def unit(self):
+        return None
+
+
+def make_client(E, kind, wire, rec, retries, retry_on_empty, retry_on_invalid, transport, connect_ok=True, udp=False):
     """client + DictTransactionManager + real framer of `kind`; transport(n_read, size) -> bytes | raises"""
+    CUR['rec'], CUR['wire'] = rec, wire
     frm = [None]
     dec = F.decoder(E, rec, frm, outcomes=('message',), size_of=lambda fc, buf: E.int('oracle_size_%d' % len(rec.decoded), 4, 300))
 
     def connect():
         wire.connects += 1
+        wire.events.append('connect')
         return connect_ok
 
     def close():
         wire.closes += 1
+        wire.events.append('close')
 
     def send(msg):
         wire.sent.append(msg)
+        wire.events.append('send')
         E.set(client, 'state', 1)        # BaseModbusClient.send: state = SENDING
         return L.length(msg)
 
     def recv(size):
         data = transport(len(wire.reads), size)
         wire.reads.append((size, data))
+        wire.events.append('recv')
         return data
-    client = E.obj(BASE, framer=None, transaction=None, broadcast_enable=False, state=IDLE, last_frame_end=None, silent_interval=0,
+    cls = 'pymodbus.client.sync.ModbusUdpClient' if udp else BASE
+    extra = dict(host='peer', port=502) if udp else {}
+    client = E.obj(cls, framer=None, transaction=None, broadcast_enable=False, state=E.choice('client_state', [0, 6]), last_frame_end=None, silent_interval=0,
                    connect=E.callback(connect, 'connect'), close=E.callback(close, 'close'), send=E.callback(send, 'send'), recv=E.callback(recv, 'recv'),
-                   timeout=3)
+                   timeout=3, **extra)
     f = E.new(F.QUAL[kind], dec, client)
     frm[0] = f
     E.set(client, 'framer', f)
-    tm = E.obj(TM, transactions={}, tid=E.int('tid_counter', 0, 65536), client=client, backoff=0, retry_on_empty=retry_on_empty, retry_on_invalid=retry_on_invalid,
-               retries=retries, _transaction_lock=E.opaque('lock', kind='RLock'), _no_response_devices=[], base_adu_size=None)
+    tm = E.obj(TM, transactions={}, tid=0, client=client, backoff=0, retry_on_empty=retry_on_empty, retry_on_invalid=retry_on_invalid,
+               retries=retries, _transaction_lock=(E.opaque('lock', kind='RLock') if E.mode == 'symbolic' else __import__('threading').RLock()), _no_response_devices=[], base_adu_size=None)
     E.method(tm, '_set_adu_size')
     E.set(client, 'transaction', tm)
     return client, tm, f
 
 
 def request(E, fc=3):
-    """a read-holding-registers style request (predicts its reply size); ids symbolic"""
+    """a read-holding-registers request (predicts its reply size); ids symbolic"""
     uid = E.int('unit_id', 0, 256)
     n = E.int('count', 1, 126)
     payload = E.bytes_n('req_payload', 4)
